@@ -70,6 +70,11 @@ func materialise(dir string, c RestartCase, rng *rand.Rand, allowOld bool) ([]ma
 					dup = true
 				}
 			}
+			for _, g := range c.Files {
+				if g.Key == f.Key && g.Size == 0 {
+					dup = true // a value of no bytes: an empty ActionResult or raw value (an empty CAS blob is never stored)
+				}
+			}
 			if dup {
 				k = []fmtw.Kind{fmtw.AC, fmtw.RAW}[rng.Intn(2)]
 			}
@@ -119,6 +124,9 @@ func materialise(dir string, c RestartCase, rng *rand.Rand, allowOld bool) ([]ma
 			}
 			data, onDisk, hash = d, d, fmtw.Sha(d)
 		default:
+			if f.Size == 0 {
+				target = 0
+			}
 			data = drv.GenData(rng, target, rng.Intn(3))
 			onDisk = data
 			hash = fmtw.Sha([]byte("restart-key-" + f.Key))
@@ -163,6 +171,15 @@ func materialise(dir string, c RestartCase, rng *rand.Rand, allowOld bool) ([]ma
 		layouts = append(layouts, layout)
 	}
 	return out, kinds, layouts, nil
+}
+
+func twinWanted(files []matFile, want map[int]bool, i int) bool {
+	for j, g := range files {
+		if j != i && want[j+1] && g.lookup == files[i].lookup && g.hash == files[i].hash && bytes.Equal(g.data, files[i].data) {
+			return true
+		}
+	}
+	return false
 }
 
 // RunRestart materialises every population, starts the real cache on it and
@@ -229,6 +246,8 @@ func RunRestart(cases []RestartCase, seed int64, stride int) (runs []RestartRun,
 			switch {
 			case want[i+1] && !mine:
 				bad("file %d (key %s, %d blocks) fits and should have survived, but is not served", i+1, c.Files[i].Key, c.Files[i].Size)
+			case !want[i+1] && mine && twinWanted(files, want, i):
+				// another file of the key with the same bytes is the survivor: indistinguishable, and fine
 			case !want[i+1] && mine:
 				bad("file %d (key %s, %d blocks) should have been evicted (older / surplus), but is still served", i+1, c.Files[i].Key, c.Files[i].Size)
 			}
